@@ -1163,3 +1163,139 @@ def channel_cases(arg):
             it.pop('after', None)
             it['src'] = it['src'][:200]
     return out
+
+
+# ---------------------------------------------------------------------------------------------------------------------
+# pure insertion into every EMPTY optional block x trailing decorations of the preceding last statement x nesting depth
+# (deterministic product).  A pure insertion keeps every comment token and every non-blank original line, in order.
+
+EB_TEMPLATES = [     # (name, source with {B} = the decorated last statement of the preceding block, kind, field, new code)
+    ('if', 'if c:\n    a = 0\n{B}', 'If', 'orelse', 'zz = 9  # new1'),
+    ('for', 'for i in x:\n    a = 0\n{B}', 'For', 'orelse', 'zz = 9  # new1'),
+    ('while', 'while c:\n{B}', 'While', 'orelse', 'zz = 9  # new1'),
+    ('try-else', 'try:\n    a = 0\nexcept E:\n{B}', 'Try', 'orelse', 'zz = 9  # new1'),
+    ('try-finally', 'try:\n    a = 0\nexcept E:\n{B}', 'Try', 'finalbody', 'zz = 9  # new1'),
+    ('try-else-finally', 'try:\n    a = 0\nexcept E:\n    b = 0\nelse:\n{B}', 'Try', 'finalbody', 'zz = 9  # new1'),
+    ('try-handlers', 'try:\n{B}\nfinally:\n    f = 0', 'Try', 'handlers', 'except ZZ:\n    pass  # new1'),
+    ('if-headline', 'if c: {H}', 'If', 'orelse', 'zz = 9  # new1'),
+    ('for-headline', 'for i in x: {H}', 'For', 'orelse', 'zz = 9  # new1'),
+    ('elif', 'if c:\n    a = 0\nelif d:\n{B}', 'If', 'orelse', 'zz = 9  # new1'),
+]
+EB_LAST = ['t += 1', 't += 1;', 't += 1; ', 't += 1  # c1', 't += 1;  # c1', 't += 1 ; # c1 é', 't += 1 ;  # c1 keep \\', 't += \\\n        1',
+           't += \\\n        1 ;  # c1', 'u = 0; t += 1;  # c1', 't += 1 \\\n    ;  # c1', 't = (1,  # in\n         2) ;  # c1']
+EB_AFTER = ['', '\n', '\n{I}# c2', '\n{L}# c2', '\n{I}    # c2', '\n\n{I}# c2\n', '\n{I}# c2\n\n{L}# c3', '\n{L}# c2 \\']
+EB_WRAPS = [('', ''), ('def f():\n', '    '), ('class K:\n    def m(self):\n', '        '), ('if q:\n    pass\nelse:\n', '    ')]
+EB_TAILS = ['', '\n{L}done = 1', '\n{L}done = 1  # c9\n']
+
+
+def empty_block_programs():
+    """[(source, path to the compound statement, kind, field, code)] the whole product (about 10k, a few hundred distinct shapes)"""
+    out = []
+    for (name, tmpl, kind, fld, code) in EB_TEMPLATES:
+        for last in EB_LAST:
+            for after in EB_AFTER:
+                for (wrap, ind) in EB_WRAPS:
+                    for tail in EB_TAILS:
+                        I, L = ind + '    ', ind
+                        body_last = '    ' + last
+                        if '{H}' in tmpl:
+                            if '\n' in last:
+                                continue
+                            src = tmpl.replace('{H}', last)
+                        else:
+                            src = tmpl.replace('{B}', body_last)
+                        src = '\n'.join(ind + l if l else l for l in src.split('\n'))
+                        if name == 'try-handlers':
+                            # decorations go after the try body's last statement, before `finally:`
+                            head, fin = src.split('\n' + ind + 'finally:')
+                            src = head + after.replace('{I}', I).replace('{L}', L) + '\n' + ind + 'finally:' + fin + tail.replace('{L}', L)
+                        else:
+                            src = src + after.replace('{I}', I).replace('{L}', L) + tail.replace('{L}', L)
+                        src = wrap + src
+                        try:
+                            tree = ast.parse(src)
+                        except SyntaxError:
+                            continue
+                        # path: the compound statement is the last statement of the wrapper body
+                        path = []
+                        n = tree
+                        if wrap.startswith('def'):
+                            path = [('body', 0)]
+                        elif wrap.startswith('class'):
+                            path = [('body', 0), ('body', 0)]
+                        elif wrap.startswith('if q'):
+                            path = [('body', 0)]
+                        for nm, i in path:
+                            n = getattr(n, nm)[i]
+                        lst = n.orelse if wrap.startswith('if q') else n.body
+                        idx = [k for k, x in enumerate(lst) if type(x).__name__ == kind]
+                        if not idx:
+                            continue
+                        path = path + [('orelse' if wrap.startswith('if q') else 'body', idx[0])]
+                        tgt = lst[idx[0]]
+                        if name == 'elif':
+                            tgt = tgt.orelse[0]
+                            path = path + [('orelse', 0)]
+                        if getattr(tgt, fld):
+                            continue            # (a trailing `done = 1` may have been absorbed): the field must be empty
+                        out.append((src, path, kind, fld, code))
+    return out
+
+
+def run_empty_block(src, edit):
+    """edit = {'op': 'insert-empty', 'path', 'pkind', 'field', 'code'}"""
+    from fst import FST
+    item = {'src': src, 'edit': edit, 'op': 'insert-empty', 'field': edit['pkind'] + '.' + edit['field'], 'violations': [], 'changed': True,
+            'outcome': 'ok', 'bad_spans': []}
+    root = FST(src, 'exec')
+    try:
+        _nav(root, edit['path']).put_slice(edit['code'], 0, 0, edit['field'])
+        new = root.src
+    except Exception as ex:
+        item['outcome'] = 'raised:' + type(ex).__name__
+        return item
+    item['after'] = new
+    v = []
+    try:
+        cb = [t.string for t in toks(src) if t.type == tokenize.COMMENT]
+        ca = [t.string for t in toks(new) if t.type == tokenize.COMMENT]
+    except Exception:
+        item['outcome'] = 'untokenizable'
+        cb = ca = None
+    if cb is not None:
+        it_ = iter(ca)
+        lost = [c for c in cb if c not in it_]
+        if lost:
+            v.append({'cls': 'comment-lost', 'what': f'pure insertion into the empty {edit["field"]} lost / reordered comment {lost[0]!r}', 'detail': lost})
+    bl = [l for l in src.split('\n') if l.strip()]
+    al = [l for l in new.split('\n') if l.strip()]
+    it_ = iter(al)
+    gone = [l for l in bl if l not in it_]
+    if gone and not v:
+        # header-line bodies are legitimately moved to their own line when the block gets a sibling clause: compare those by tokens
+        tb = [t.string for t in toks(src) if t.type not in NONSIG]
+        ta = iter([t.string for t in toks(new) if t.type not in NONSIG]) if item['outcome'] == 'ok' else iter([])
+        if not all(x in ta for x in tb if x != ';'):
+            v.append({'cls': 'line-changed', 'what': f'pure insertion into the empty {edit["field"]} changed the original line {gone[0]!r}', 'detail': gone[:3]})
+    item['violations'] = v
+    if v:
+        item['outcome'] = 'violation'
+    return item
+
+
+def empty_block_cases(arg):
+    chunk = arg
+    out = []
+    for (src, path, kind, fld, code) in chunk:
+        edit = {'op': 'insert-empty', 'path': path, 'pkind': kind, 'field': fld, 'code': code}
+        try:
+            it = run_empty_block(src, edit)
+        except Exception as ex:
+            it = {'src': src, 'edit': edit, 'op': 'insert-empty', 'field': kind + '.' + fld, 'violations': [], 'changed': False,
+                  'outcome': 'harness:' + type(ex).__name__ + ':' + str(ex)[:80], 'bad_spans': []}
+        import hashlib
+        it['key'] = hashlib.blake2b((src + fld).encode(), digest_size=8).hexdigest()
+        if not it['violations']:
+            it.pop('after', None)
+        out.append(it)
+    return out
